@@ -1,4 +1,5 @@
 """C06 — every page accounted for exactly once; space inside each page adds up."""
+import os
 from sqlite_dissect.file.database.page import BTreePage
 
 from ..gen import histories as H, sqlite_factory as F
@@ -85,7 +86,8 @@ def check_census(ctx, version, path, case):
 
 # boundary shapes every run must contain: exactly 60 fragmented bytes on a page (20 x 3), just below, a wide table
 FORCE = {"fragmenter": lambda i: [(20, 3), None, (19, 3), None, (21, 3), None, (40, 2), None][i % 8],
-         "wide_table": lambda i: [0, 0, 0, 300, 0, 0, 0, 150][i % 8]}
+         "wide_table": lambda i: [0, 0, 0, 300, 0, 0, 0, 150][i % 8],
+         "table_boundary": lambda i: i % 2 == 0}      # rows whose payload is exactly (u-35) + k(u-4), and around it
 
 
 def run(ctx, n_quick=40, n_thorough=500):
@@ -101,8 +103,25 @@ def run(ctx, n_quick=40, n_thorough=500):
             # (V) the page specification the tree theorems quantify over holds of the pages SQLite wrote
             ctx.extra["pages_validating_the_spec"] = ctx.extra.get("pages_validating_the_spec", 0) + V.validate_pages(
                 ctx, b.path, case, max_pages=40 if ctx.thorough() else 14, max_page_size=65536 if ctx.thorough() else 8192)
-        # versions of WAL histories: census per version against the model (dbstat only sees the newest state)
+        # an auto-vacuum database with several pointer-map pages (more than 2 x (page_size/5 + 1) pages): the entry count
+        # of the last pointer-map page depends on the earlier ones
         r = ctx.rng
+        for i, av in enumerate((1, 2)):
+            cfg = F.random_cfg(r, small=True)
+            cfg.update(page_size=512, auto_vacuum=av, rows=150 + 100 * i, n_tables=2, big_values=True, wide_table=0, fragmenter=None)
+            try:
+                b = F.build(sc.path(f"pm{i}.db"), cfg, r)
+            except Exception as e:  # noqa
+                ctx.notes.append(f"factory error skipped: {e}")
+                continue
+            case = {"cfg": b.cfg, "seed": ctx.seed, "shape": "several pointer-map pages"}
+            impl, db, exc = C.compare_db_dump(ctx, b.path, "db.dump")
+            ctx.branch("gen:several-ptrmap-pages" if os.path.getsize(b.path) > 512 * 2 * 104 else "gen:one-ptrmap-page")
+            if db is None:
+                ctx.oracle_fail("rejected", f"a database written by SQLite is rejected: {impl}", case, impl, "accepted")
+                continue
+            check_census(ctx, db, b.path, case)
+        # versions of WAL histories: census per version against the model (dbstat only sees the newest state)
         kinds = ["freelist_drain", "grow_shrink", None, "ddl", "freelist_drain", "rootmove", None, "spill"]
         for i in range(24 if ctx.thorough() else 6):
             cfg = F.random_cfg(r, page_sizes=[512, 1024, 4096], small=True)
